@@ -57,6 +57,16 @@ def observe(ctx: fw.Ctx, hists):
                          {"doc": h.text, "ops": [list(x.op) for x in h.recs], "at": list(r.op),
                           "before": r.before_text, "after": r.after_text},
                          f"rejected {r.op!r} changed the document: {r.before_text!r} -> {r.after_text!r}")
+        # operations that cannot be applied must not be accepted
+        for r in h.recs:
+            if r.result != "ok":
+                continue
+            inp = {"doc": h.text, "ops": [list(x.op) for x in h.recs], "at": list(r.op), "before": r.before_text,
+                   "output": r.out}
+            why = must_reject(r)
+            if why:
+                ctx.fail({"clause": "accepted", "why": why, "op": r.op[0]}, inp,
+                         f"{r.op!r} on {r.before_text!r} cannot be applied ({why}) but succeeded: {r.out!r}")
         # later edits behave as if the failed ones had never happened
         if failed and len(failed) < len(h.recs):
             src = parse(h.text)
@@ -72,6 +82,32 @@ def observe(ctx: fw.Ctx, hists):
                              {"doc": h.text, "ops": [list(x.op) for x in h.recs], "at": list(r.op)},
                              f"with the rejected operations left out, {r.op!r} yields {out!r} instead of {r.out!r}")
                     break
+
+
+def must_reject(r) -> str | None:
+    """why the operation cannot be applied, judged without the implementation: malformed path,
+    invalid value, overwrite/removal of an attrpath root"""
+    from ..oracle import cstread
+
+    path = r.op[1]
+    if not ep.path_wellformed(path):
+        return "malformed-path"
+    if r.op[0] == "set":
+        v = r.op[2]
+        root = cstread.ts_parse(v)
+        if root.has_error or len([c for c in root.named_children if c.type != "comment"]) != 1:
+            return "invalid-value"
+    if path.startswith("@"):
+        return None
+    if cstread.ts_parse(r.before_text).has_error:
+        return "erroneous-source"
+    try:
+        names = tuple(ep.split_path(path))
+    except Exception:  # noqa: BLE001
+        return None
+    if r.op[0] == "set" and names in ep.attrpath_prefixes_of(r.before_text):
+        return "attrpath-root"  # (removing a whole attrpath family is not in the property's list)
+    return None
 
 
 def cls_key(h, r):
